@@ -81,6 +81,14 @@ template<int D> void do_op(view_t<D>& dv, view_t<D>* twin, std::string const& ki
 		dv = sv;
 		read_canon(sv, src_after); have_src = true;
 	}
+	else if(kind == "assign_rdest_rotview" || kind == "assign_rdest_rvalue_rotview" || kind == "assign_rdest_array") {
+		// the DESTINATION view is a temporary (A[i] = ..., A.rotated()[j] = ...): the &&-qualified assignment operators
+		multi::array<T, D> backing; auto sv = rotview(backing);
+		{ long k = 0; fill_canon(sv, 1000, k); }
+		if(kind == "assign_rdest_array") { std::move(dv) = src; }
+		else if(kind == "assign_rdest_rotview") { std::move(dv) = sv; read_canon(sv, src_after); have_src = true; }
+		else { std::move(dv) = std::move(sv); read_canon(sv, src_after); have_src = true; }
+	}
 	else if(kind == "assign_padview") {
 		std::vector<long> psh(sh); for(auto& s : psh) { s += 2; }
 		multi::array<T, D> backing(zext<D>(psh), mk(-9));
